@@ -1,7 +1,7 @@
 (* proofs/C02_bridge.v — JUDGE BRIDGE for property C02 (responses follow the Via chain).
 
    The executable judge [SpecProxy.judge_C02_event] reads raw bytes with its own minimal reader
-   (j_read, j_flat is_via, j_via, j_get, jvia_port, j_dest, dest_ok, jvia_eqb).  This file proves that
+   (j_read, j_flat_via, j_via, j_get, jvia_port, j_dest, dest_ok, jvia_eqb).  This file proves that
    it ACCEPTS (returns 0) what the MODEL emits for a datagram carrying a response, for every
    configuration, listener, source, model state and every response whose Via header values are
    reference renderings of well-formed Via entry lists of the C14 grammar (any layout: comma lists,
@@ -9,10 +9,10 @@
    theorems of proofs/C02.v (C02_response_general, C02_dest_udp, C02_dest_tcp, C02_dest_unsupported).
 
    Part 1  the Via view of a message whose Via headers all decode: pop / top on the flat list
-   Part 2  the invariant [good] of proofs/C07_bridge.v along the RESPONSE pipeline (PopVia keeps it
-           when the entry that becomes the first one does not begin with Unicode white space:
-           [via_lead_ok]); the message that is serialised, as an explicit function of the input:
-           [relayed_response]
+   Part 2  the invariant [good] of proofs/C07_bridge.v along the RESPONSE pipeline (PopVia keeps it: the
+           entry that becomes the first one may begin with Unicode white space, the judge trims the
+           left end of every entry like strings.TrimSpace); the message that is serialised, as an
+           explicit function of the input: [relayed_response]
    Part 3  the judge unfolded ([jc02_body], [jc02_two], [jvias_ok]); its host / port arithmetic is
            hop_host / hop_port of C02.v ([jhop_of])
    Part 4  C02_judge_bridge_core: the judge accepts as soon as its destination check [dest_ok] holds
@@ -29,9 +29,11 @@
              C02_judge_bridge_step_tcp_sent     ... corollary: something was written: no agreement needed
              C02_judge_bridge_step_tcp_fresh    next Via says TCP, first use of that address by this
                                                 listener: agreement on the STATES only ([tcp_agree])
-   Part 6  examples (non-vacuity), a sensitivity check of the judge, and the witness
-           [via_lead_ok_needed]: without [via_lead_ok] the judge REJECTS the model (its reader trims
-           Unicode white space off the re-encoded header value)
+   Part 6  examples (non-vacuity), a sensitivity check of the judge, and two runs with Unicode white
+           space inside a Via comma list: [via_lead_ok_needed] (second entry BEGINS with U+0085: the
+           judge's former reader rejected this correct relay, the present one accepts it, and the
+           hypothesis [via_lead_ok] the theorems used to carry is gone) and [via_tail_kept] (second
+           entry ENDS with U+00A0: why the right end of a Via entry is not read through TrimSpace)
    Not covered: responses whose Via values are outside the C14 grammar (the judge's own j_via failing
    on an entry is not related to parse_via failing), responses arriving over TCP (EvTcpData).
    No axioms, no admits. *)
@@ -76,25 +78,23 @@ Proof.
 Qed.
 
 (* ====================================================================== Part 2: [good] along the response pipeline *)
-(* the entry that becomes the first one of the first Via header after the pop (second entry of a
-   comma list) does not begin with Unicode white space: the judge reads header values through
-   strings.TrimSpace *)
-Definition via_lead_ok (m : message) : Prop :=
-  match via_hdrs m with
-  | Some (_ :: b :: r) :: _ => lclean (via_print (b :: r))
-  | _ => True
-  end.
-
-Lemma vl_ok_tl a b l : vl_ok (a :: b :: l) -> lclean (via_print (b :: l)) -> vl_ok (b :: l).
+(* The entry that becomes the first one of the first Via header after the pop (second entry of a comma
+   list) may begin with Unicode white space ([safe] allows bytes >= 128): the judge reads header values
+   through strings.TrimSpace, and it trims the left end of EVERY entry of a comma list the same way
+   (SpecProxy.j_flat_via), so it reads that entry the same way in the received response (after a comma)
+   and in the relayed one (first of its header value).  [vl_ok] only asks for a clean RIGHT end, which
+   the rest of a list inherits.  (Before j_flat_via an extra hypothesis [via_lead_ok] was needed here,
+   see [via_lead_ok_needed] below.) *)
+Lemma vl_ok_tl a b l : vl_ok (a :: b :: l) -> vl_ok (b :: l).
 Proof.
-  intros (_ & OK & TR) LC. cbn [forallb] in OK. apply andb_true_iff in OK. destruct OK as [_ OK].
+  intros (_ & OK & TR). cbn [forallb] in OK. apply andb_true_iff in OK. destruct OK as [_ OK].
   split; [discriminate|]. split; [exact OK|].
-  rewrite via_print_cons2 in TR. exact (B13.tfix_suffix _ _ _ TR LC).
+  rewrite via_print_cons2 in TR. exact (rclean_suffix [","%char] _ (rclean_suffix _ _ TR)).
 Qed.
 
-Lemma good_pop_via m : good m -> via_lead_ok m -> good (fst (s_pop_via m)).
+Lemma good_pop_via m : good m -> good (fst (s_pop_via m)).
 Proof.
-  intros G L. unfold s_pop_via, mbind.
+  intros G. unfold s_pop_via, mbind.
   pose proof (gpres_s_get_via m G) as G1. pose proof (s_get_via_ret m) as R.
   assert (K : forall l, snd (s_get_via m) = Ok l -> exists t, via_hdrs m = Some l :: t).
   { intros l E. destruct (via_hdrs m) as [|[l0|] t] eqn:EV.
@@ -111,7 +111,7 @@ Proof.
   - apply good_remove. exact G1.
   - apply good_remove. exact G1.
   - apply good_set_val; [exact G1|]. intros h E. destruct (good_get _ _ _ G1 E) as [(N & _) Hn].
-    split; [exact N|]. apply (vl_ok_tl a b l' R). unfold via_lead_ok in L. rewrite EV in L. exact L.
+    split; [exact N|]. exact (vl_ok_tl a b l' R).
 Qed.
 
 Lemma gpres_handle_dialog e peer port p : gpres (handle_dialog e peer port p).
@@ -131,7 +131,7 @@ Proof.
 Qed.
 
 (* C02_response_general with the invariant carried along *)
-Lemma handle_response_good e from m x : is_request m = false -> good m -> via_lead_ok m ->
+Lemma handle_response_good e from m x : is_request m = false -> good m ->
   match top_view (pop_view (via_hdrs m)) with
   | Some v2 =>
       exists m4 pins',
@@ -143,8 +143,8 @@ Lemma handle_response_good e from m x : is_request m = false -> good m -> via_le
   | None => fst (handle_message e from m x) = x
   end.
 Proof.
-  intros Hq G L. unfold handle_message. rewrite Hq.
-  destruct (s_pop_via_view m) as (P1 & P2 & P3). pose proof (good_pop_via m G L) as GP.
+  intros Hq G. unfold handle_message. rewrite Hq.
+  destruct (s_pop_via_view m) as (P1 & P2 & P3). pose proof (good_pop_via m G) as GP.
   rewrite <- (fst_mtry s_pop_via m) in P1, P2, P3, GP.
   destruct (mtry s_pop_via m) as [m1 r1]. cbn [fst] in P1, P2, P3, GP.
   destruct (next_response_hop_spec m1) as ((N1 & N2 & N3) & NS). rewrite P3 in NS.
@@ -208,7 +208,7 @@ Proof.
 Qed.
 
 Lemma response_hm_good e peer port from x m0 :
-  is_response m0 = true -> good m0 -> via_lead_ok m0 ->
+  is_response m0 = true -> good m0 ->
   match top_view (pop_view (via_hdrs m0)) with
   | Some v2 =>
       exists m4 pins',
@@ -220,7 +220,7 @@ Lemma response_hm_good e peer port from x m0 :
   | None => x_outs (fst (response_hm e peer port from x m0)) = x_outs x
   end.
 Proof.
-  intros Hr G0 L0.
+  intros Hr G0.
   assert (Hq : is_request m0 = false) by (unfold is_response in Hr; apply negb_true_iff; exact Hr).
   unfold response_hm. cbv zeta.
   set (m4 := fst (mtry (try_remove_top_route (e_cfg e) from) m0)).
@@ -237,9 +237,8 @@ Proof.
   destruct P2 as (pins2 & ->).
   assert (Q5 : is_request m5 = false) by (rewrite (veq_is_request _ _ V5); exact Hq).
   destruct V5 as (S5 & B5 & H5).
-  assert (L5 : via_lead_ok m5) by (unfold via_lead_ok in *; rewrite H5; exact L0).
   match goal with |- context [handle_message e from m5 ?X] =>
-    pose proof (handle_response_good e from m5 X Q5 GD L5) as GG end.
+    pose proof (handle_response_good e from m5 X Q5 GD) as GG end.
   rewrite H5 in GG. destruct (top_view (pop_view (via_hdrs m0))) as [v2|].
   - destruct GG as (m6 & pins' & G1 & G2 & G3 & G4' & G5). exists m6, pins'. rewrite G1.
     split; [reflexivity|]. split; [exact G2|]. repeat split; congruence.
@@ -263,7 +262,7 @@ Definition relayed_bytes (fx : fixes) (c : cfg) (now : Z) (br : bytes) (st : sta
 
 Lemma step_response_good fx c now br st li src sport data lc p m rest st' outs :
   nth_opt (c_listens c) li = Some lc -> nth_p (st_proxies st) li = Some p ->
-  parse_message data = Ok (m, rest) -> is_response m = true -> good m -> via_lead_ok m ->
+  parse_message data = Ok (m, rest) -> is_response m = true -> good m ->
   proxy_step fx c now br st (EvUdp li src sport data) = Ok (st', outs) ->
   match top_view (pop_view (via_hdrs m)) with
   | Some v2 =>
@@ -275,13 +274,13 @@ Lemma step_response_good fx c now br st li src sport data lc p m rest st' outs :
   | None => outs = []
   end.
 Proof.
-  intros EL EP EM Hr G L H.
+  intros EL EP EM Hr G H.
   cbn [proxy_step] in H. rewrite EL, EM in H. unfold run_ctx in H. rewrite EP in H.
   destruct (process_message _ _ _ _ _ _ _ _) as [x'| |] eqn:E; try discriminate.
   injection H as <- <-.
   pose proof (process_response_hm _ _ _ _ _ _ _ _ Hr E) as EX.
   fold (step_env fx c li lc now br) in EX. fold (udp_from lc) in EX. fold (step_ctx st p) in EX.
-  pose proof (response_hm_good (step_env fx c li lc now br) src sport (udp_from lc) (step_ctx st p) m Hr G L) as GG.
+  pose proof (response_hm_good (step_env fx c li lc now br) src sport (udp_from lc) (step_ctx st p) m Hr G) as GG.
   destruct (top_view (pop_view (via_hdrs m))) as [v2|].
   - destruct GG as (m4 & pins' & G1 & G2 & G3 & G4 & G5). exists m4, pins'.
     split; [rewrite EX, G1; reflexivity|]. split; [|repeat split; assumption].
@@ -321,7 +320,7 @@ Definition jhop (v2 : jvia) : bytes * Z :=
 Definition jvias_ok (ob : bytes) (v2 : jvia) (vrest : list jvia) : nat :=
   match j_read ob with
   | Some om =>
-      match opt_all (map j_via (j_flat is_via (jm_headers om))) with
+      match opt_all (map j_via (j_flat_via (jm_headers om))) with
       | Some ovs =>
           if (Nat.eqb (List.length ovs) (S (List.length vrest)) &&
               forallb (fun '(a, b) => jvia_eqb a b) (combine ovs (v2 :: vrest)))%bool
@@ -356,7 +355,7 @@ Lemma judge_C02_udp_unfold pc st li src sport data outs closed :
   judge_C02_event pc st (EvUdp li src sport data) outs closed =
   match j_read data with
   | Some m => if (j_is_response m && jm_has_cl m && (negb false || single_message m))%bool
-              then jc02_body pc st (j_flat is_via (jm_headers m)) (msgs_of outs) else O
+              then jc02_body pc st (j_flat_via (jm_headers m)) (msgs_of outs) else O
   | None => O
   end.
 Proof. reflexivity. Qed.
@@ -449,7 +448,7 @@ Theorem C02_judge_bridge_core :
          (p : pstate) (st' : state) (outs : list output) (vis : output -> bool) (closed : list nat),
   nth_opt (c_listens (pc_cfg pc)) li = Some lc -> nth_p (st_proxies st) li = Some p ->
   j_read data = Some jin -> parse_message data = Ok (m, rest) ->
-  via_domain m -> via_lead_ok m ->
+  via_domain m ->
   proxy_step fx (pc_cfg pc) now br st (EvUdp li src sport data) = Ok (st', outs) ->
   (forall v1 v2 vrest m4 pins',
      is_response m = true ->
@@ -462,7 +461,7 @@ Theorem C02_judge_bridge_core :
   judge_C02_event pc stj (EvUdp li src sport data) (map B13.labelled (filter vis outs)) closed = O.
 Proof.
   intros pc stj fx now br st li lc src sport data jin m rest p st' outs vis closed
-         EL EP HJ HP HV HL H Hdest.
+         EL EP HJ HP HV H Hdest.
   rewrite judge_C02_udp_unfold, HJ.
   destruct (j_is_response jin && jm_has_cl jin && (negb false || single_message jin))%bool eqn:Cond; [|reflexivity].
   destruct (read_agree _ _ _ _ HJ HP) as (_ & _ & _ & Bd & PS).
@@ -480,7 +479,7 @@ Proof.
     by (eapply Forall_impl; [|exact G0]; intros h Gh _; exact Gh).
   pose proof (via_read (m_headers m) GA) as VR. rewrite <- EH in VR. fold (via_hdrs m) in VR.
   pose proof (good_view _ GA) as GV. fold (via_hdrs m) in GV.
-  pose proof (step_response_good _ _ _ _ _ _ _ _ _ _ _ _ _ _ _ EL EP HP Hr G0 HL H) as SG.
+  pose proof (step_response_good _ _ _ _ _ _ _ _ _ _ _ _ _ _ _ EL EP HP Hr G0 H) as SG.
   destruct (flat_view (via_hdrs m)) as [|v1 [|v2 vrest]] eqn:FV.
   - rewrite (pop_short _ GV) in SG by (rewrite FV; cbn [List.length]; lia). subst outs.
     exact (jc02_body_short pc stj _ _ VR (Nat.le_0_l _)).
@@ -533,7 +532,6 @@ Qed.
    [dest_ok] reads only the case (the UDP endpoints the driver can observe), so [stj] is arbitrary.
    Conditions, all on the input / the configuration / the model state:
      via_domain m      Via header values are reference renderings of well-formed entry lists (C14 grammar)
-     via_lead_ok m     the second entry of a comma list does not begin with Unicode white space
      flat_view (via_hdrs m) = v1 :: v2 :: vrest   at least two Via entries (any layout)
      to_lower (v_transport v2) = "udp", get_ip = Some ip, resolvable ip port   (C02_dest_udp)
      udp_slot_ok       the table slot of that destination is free or holds a UDP client (C02_dest_udp; it can
@@ -546,7 +544,7 @@ Theorem C02_judge_bridge_step_udp :
          (v1 v2 : via_param) (vrest : list via_param) (ip : bytes),
   nth_opt (c_listens (pc_cfg pc)) li = Some lc -> nth_p (st_proxies st) li = Some p ->
   j_read data = Some jin -> parse_message data = Ok (m, rest) ->
-  via_domain m -> via_lead_ok m ->
+  via_domain m ->
   flat_view (via_hdrs m) = v1 :: v2 :: vrest ->
   to_lower (v_transport v2) = s2b "udp" ->
   get_ip (pc_cfg pc) (hop_host v2) = Some ip -> resolvable ip (hop_port v2) = true ->
@@ -557,9 +555,9 @@ Theorem C02_judge_bridge_step_udp :
     (map B13.labelled (filter (visible (pc_udp_endpoints pc)) outs)) closed = O.
 Proof.
   intros pc stj fx now br st li lc src sport data jin m rest p st' outs closed v1 v2 vrest ip
-         EL EP HJ HP HV HL FV Htr Hip Hres Hslot Hfit H.
+         EL EP HJ HP HV FV Htr Hip Hres Hslot Hfit H.
   apply (C02_judge_bridge_core pc stj fx now br st li lc src sport data jin m rest p st' outs _ closed
-           EL EP HJ HP HV HL H).
+           EL EP HJ HP HV H).
   intros v1' v2' vrest' m4 pins' Hr FV' EO EB. rewrite FV in FV'. injection FV' as <- <- <-.
   rewrite <- EB in Hfit.
   rewrite EO.
@@ -585,10 +583,8 @@ Theorem C02_judge_bridge_step_drop :
 Proof.
   intros pc stj fx now br st li lc src sport data jin m rest p st' outs vis closed EL EP HJ HP HV Hlen H.
   apply (C02_judge_bridge_core pc stj fx now br st li lc src sport data jin m rest p st' outs vis closed
-           EL EP HJ HP HV); [|exact H|].
-  - unfold via_lead_ok. destruct (via_hdrs m) as [|[[|a [|b r]]|] t]; try exact I.
-    exfalso. unfold flat_view in Hlen. cbn [flat_map app List.length] in Hlen. lia.
-  - intros v1 v2 vrest m4 pins' _ FV _ _. rewrite FV in Hlen. cbn [List.length] in Hlen. lia.
+           EL EP HJ HP HV H).
+  intros v1 v2 vrest m4 pins' _ FV _ _. rewrite FV in Hlen. cbn [List.length] in Hlen. lia.
 Qed.
 
 (* ---------------------------------------------------------------- (c) a transport that is neither udp nor tcp *)
@@ -599,16 +595,16 @@ Theorem C02_judge_bridge_step_unsupported :
          (v1 v2 : via_param) (vrest : list via_param),
   nth_opt (c_listens (pc_cfg pc)) li = Some lc -> nth_p (st_proxies st) li = Some p ->
   j_read data = Some jin -> parse_message data = Ok (m, rest) ->
-  via_domain m -> via_lead_ok m ->
+  via_domain m ->
   flat_view (via_hdrs m) = v1 :: v2 :: vrest ->
   supported_proto (to_lower (v_transport v2)) = false ->
   proxy_step fx (pc_cfg pc) now br st (EvUdp li src sport data) = Ok (st', outs) ->
   judge_C02_event pc stj (EvUdp li src sport data) (map B13.labelled (filter vis outs)) closed = O.
 Proof.
   intros pc stj fx now br st li lc src sport data jin m rest p st' outs vis closed v1 v2 vrest
-         EL EP HJ HP HV HL FV Hun H.
+         EL EP HJ HP HV FV Hun H.
   apply (C02_judge_bridge_core pc stj fx now br st li lc src sport data jin m rest p st' outs vis closed
-           EL EP HJ HP HV HL H).
+           EL EP HJ HP HV H).
   intros v1' v2' vrest' m4 pins' Hr FV' EO EB. rewrite FV in FV'. injection FV' as <- <- <-.
   rewrite EO, (C02_dest_unsupported _ _ _ _ _ _ Hun). cbn [pin_ctx x_outs filter map].
   unfold supported_proto in Hun. apply orb_false_iff in Hun. destruct Hun as [U1 U2].
@@ -633,16 +629,16 @@ Theorem C02_judge_bridge_step_unresolved :
          (v1 v2 : via_param) (vrest : list via_param),
   nth_opt (c_listens (pc_cfg pc)) li = Some lc -> nth_p (st_proxies st) li = Some p ->
   j_read data = Some jin -> parse_message data = Ok (m, rest) ->
-  via_domain m -> via_lead_ok m ->
+  via_domain m ->
   flat_view (via_hdrs m) = v1 :: v2 :: vrest ->
   get_ip (pc_cfg pc) (hop_host v2) = None ->
   proxy_step fx (pc_cfg pc) now br st (EvUdp li src sport data) = Ok (st', outs) ->
   judge_C02_event pc stj (EvUdp li src sport data) (map B13.labelled (filter vis outs)) closed = O.
 Proof.
   intros pc stj fx now br st li lc src sport data jin m rest p st' outs vis closed v1 v2 vrest
-         EL EP HJ HP HV HL FV Hip H.
+         EL EP HJ HP HV FV Hip H.
   apply (C02_judge_bridge_core pc stj fx now br st li lc src sport data jin m rest p st' outs vis closed
-           EL EP HJ HP HV HL H).
+           EL EP HJ HP HV H).
   intros v1' v2' vrest' m4 pins' Hr FV' EO EB. rewrite FV in FV'. injection FV' as <- <- <-.
   destruct (send_message_outs (step_env fx (pc_cfg pc) li lc now br) (hop_host v2) (hop_port v2)
               (v_transport v2) m4 (pin_ctx st p pins')) as (_ & _ & os & O1 & O2).
@@ -718,7 +714,7 @@ Theorem C02_judge_bridge_step_tcp_partial :
          (v1 v2 : via_param) (vrest : list via_param) (ip : bytes),
   nth_opt (c_listens (pc_cfg pc)) li = Some lc -> nth_p (st_proxies st) li = Some p ->
   j_read data = Some jin -> parse_message data = Ok (m, rest) ->
-  via_domain m -> via_lead_ok m ->
+  via_domain m ->
   flat_view (via_hdrs m) = v1 :: v2 :: vrest ->
   to_lower (v_transport v2) = s2b "tcp" ->
   get_ip (pc_cfg pc) (hop_host v2) = Some ip ->
@@ -729,9 +725,9 @@ Theorem C02_judge_bridge_step_tcp_partial :
     (map B13.labelled (filter (visible (pc_udp_endpoints pc)) outs)) closed = O.
 Proof.
   intros pc stj fx now br st li lc src sport data jin m rest p st' outs closed v1 v2 vrest ip
-         EL EP HJ HP HV HL FV Htr Hip Hfx Hslot H HQ.
+         EL EP HJ HP HV FV Htr Hip Hfx Hslot H HQ.
   apply (C02_judge_bridge_core pc stj fx now br st li lc src sport data jin m rest p st' outs _ closed
-           EL EP HJ HP HV HL H).
+           EL EP HJ HP HV H).
   intros v1' v2' vrest' m4 pins' Hr FV' EO EB. rewrite FV in FV'. injection FV' as <- <- <-.
   destruct (C02_dest_tcp (step_env fx (pc_cfg pc) li lc now br) (hop_host v2) (hop_port v2) (v_transport v2) m4
               (pin_ctx st p pins') Hfx Htr Hslot) as (os & O1 & O2).
@@ -751,7 +747,7 @@ Corollary C02_judge_bridge_step_tcp_sent :
          (v1 v2 : via_param) (vrest : list via_param) (ip : bytes),
   nth_opt (c_listens (pc_cfg pc)) li = Some lc -> nth_p (st_proxies st) li = Some p ->
   j_read data = Some jin -> parse_message data = Ok (m, rest) ->
-  via_domain m -> via_lead_ok m ->
+  via_domain m ->
   flat_view (via_hdrs m) = v1 :: v2 :: vrest ->
   to_lower (v_transport v2) = s2b "tcp" ->
   get_ip (pc_cfg pc) (hop_host v2) = Some ip ->
@@ -762,9 +758,9 @@ Corollary C02_judge_bridge_step_tcp_sent :
     (map B13.labelled (filter (visible (pc_udp_endpoints pc)) outs)) closed = O.
 Proof.
   intros pc stj fx now br st li lc src sport data jin m rest p st' outs closed v1 v2 vrest ip
-         EL EP HJ HP HV HL FV Htr Hip Hfx Hslot H NE.
+         EL EP HJ HP HV FV Htr Hip Hfx Hslot H NE.
   apply (C02_judge_bridge_step_tcp_partial pc stj fx now br st li lc src sport data jin m rest p st' outs closed
-           v1 v2 vrest ip EL EP HJ HP HV HL FV Htr Hip Hfx Hslot H).
+           v1 v2 vrest ip EL EP HJ HP HV FV Htr Hip Hfx Hslot H).
   intros E. exfalso. exact (NE E).
 Qed.
 
@@ -800,10 +796,7 @@ Proof.
   intros F. cbn [tcp_client_send]. rewrite F. cbn [tc_cached tc_host tc_port].
   change (existsb (fun '(h, pt) => beq h ip && Z.eqb pt port) (w_tcp_listeners w))
     with (has_peer (w_tcp_listeners w) ip port).
-  destruct (has_peer (w_tcp_listeners w) ip port); [|reflexivity].
-  cbn [ps_clients with_clients]. rewrite (find_set_cached_some id (Some (w_next_conn w)) _ _ F).
-  cbn [tc_cached]. unfold conn_open. rewrite existsb_app. cbn [existsb cn_id cn_open].
-  rewrite Nat.eqb_refl. cbn [andb orb]. rewrite orb_true_r. reflexivity.
+  destruct (has_peer (w_tcp_listeners w) ip port); reflexivity.
 Qed.
 
 Lemma ps_clients_clean now p : ps_clients (clean_expired now p) = ps_clients p.
@@ -866,7 +859,7 @@ Theorem C02_judge_bridge_step_tcp_fresh :
   tcp_agree pc stj st ip (hop_port v2) ->
   nth_opt (c_listens (pc_cfg pc)) li = Some lc -> nth_p (st_proxies st) li = Some p ->
   j_read data = Some jin -> parse_message data = Ok (m, rest) ->
-  via_domain m -> via_lead_ok m ->
+  via_domain m ->
   flat_view (via_hdrs m) = v1 :: v2 :: vrest ->
   to_lower (v_transport v2) = s2b "tcp" ->
   get_ip (pc_cfg pc) (hop_host v2) = Some ip ->
@@ -876,9 +869,9 @@ Theorem C02_judge_bridge_step_tcp_fresh :
     (map B13.labelled (filter (visible (pc_udp_endpoints pc)) outs)) closed = O.
 Proof.
   intros pc stj fx now br st li lc src sport data jin m rest p st' outs closed v1 v2 vrest ip
-         (AG1 & AG2) EL EP HJ HP HV HL FV Htr Hip Hfx Hfresh H.
+         (AG1 & AG2) EL EP HJ HP HV FV Htr Hip Hfx Hfresh H.
   apply (C02_judge_bridge_core pc stj fx now br st li lc src sport data jin m rest p st' outs _ closed
-           EL EP HJ HP HV HL H).
+           EL EP HJ HP HV H).
   intros v1' v2' vrest' m4 pins' Hr FV' EO EB. rewrite FV in FV'. injection FV' as <- <- <-.
   rewrite EO.
   rewrite (send_message_tcp_fresh (step_env fx (pc_cfg pc) li lc now br) (hop_host v2) (hop_port v2)
@@ -951,7 +944,7 @@ Definition seen (b : bytes) : list (bytes * bytes) :=
 (* what leaves the proxy: one datagram to received:rport of the second entry *)
 Example ex_output :
   map fst (seen ex_data) = [s2b "udp:127.0.0.9:40000"] /\
-  map (fun o => option_map (fun om => j_flat is_via (jm_headers om)) (j_read (snd o))) (seen ex_data) =
+  map (fun o => option_map (fun om => j_flat_via (jm_headers om)) (j_read (snd o))) (seen ex_data) =
     [Some [s2b "SIP/2.0/UDP 10.9.9.9:5070;rport=40000;branch=z9hG4bKabc;received=127.0.0.9";
            s2b "SIP/2.0/TCP 10.8.8.8;branch=z9hG4bKdef"]].
 Proof. split; vm_compute; reflexivity. Qed.
@@ -968,7 +961,6 @@ Proof.
   - vc.
   - vc.
   - apply via_domain_b_sound. vc.
-  - vc.
   - vc.
   - vc.
   - vc.
@@ -1027,7 +1019,6 @@ Proof.
   - vc.
   - vc.
   - vc.
-  - vc.
   - reflexivity.
   - apply slots_fresh_init.
   - vc.
@@ -1047,18 +1038,23 @@ Proof.
   - vc.
   - vc.
   - vc.
-  - vc.
   - reflexivity.
   - apply slots_fresh_init.
   - vc.
 Qed.
 
-(* FINDING: [via_lead_ok] cannot be dropped.  The second entry of the comma list begins with U+0085
-   (bytes C2 85: Unicode white space for strings.TrimSpace, but neither a blank of the Via grammar nor
-   ASCII).  The response is in [via_domain]; the model relays it to the right address with that entry
-   first in its header; the judge reads header values through TrimSpace, loses the two bytes, and
-   rejects its own expectation (reason 2).  A defect of the judge's reader on exotic input, not of
-   the relay. *)
+(* THE STORY OF [via_lead_ok].  The second entry of the comma list begins with U+0085 (bytes C2 85: Unicode
+   white space for strings.TrimSpace, but neither a blank of the Via grammar nor ASCII).  The response is
+   in [via_domain]; the model relays it to the right address with that entry FIRST in its header value.
+   The judge's former reader (SpecProxy.j_flat trimmed the entries of a comma list with the ASCII-only
+   trim_space while j_header reads header values through TrimSpace) kept the two bytes on the input side
+   (entry after a comma), lost them on the output side (entry first in its value) and rejected its own
+   expectation (reason 2).  The bridge theorems of this file therefore carried the hypothesis
+     via_lead_ok m := match via_hdrs m with Some (_ :: b :: r) :: _ => lclean (via_print (b :: r)) | _ => True end
+   and this Example stated that it could not be dropped (verdict 2 on a correct relay: a defect of the
+   judge's reader on exotic input).  The judge now trims the LEFT end of every Via entry like
+   strings.TrimSpace (SpecProxy.j_flat_via); the hypothesis is gone from every theorem, and on this very
+   input - which violates it - the judge answers 0: by computation, and by C02_judge_bridge_step_udp. *)
 Definition nel : bytes := [ascii_of_nat 194; ascii_of_nat 133].
 Definition ex_nel : bytes :=
   ln "SIP/2.0 200 OK" ++
@@ -1067,12 +1063,62 @@ Definition ex_nel : bytes :=
   flat_map ln ["From: <sip:a@example.com>;tag=1"; "To: <sip:bob@example.com>;tag=2"; "Call-ID: c1";
                "CSeq: 1 INVITE"; "Content-Length: 0"] ++ crlf.
 Example via_lead_ok_needed :
-  via_domain (parsed ex_nel) /\ ~ via_lead_ok (parsed ex_nel) /\
+  via_domain (parsed ex_nel) /\
+  ~ lclean (via_print (tl (flat_view (via_hdrs (parsed ex_nel))))) /\      (* what via_lead_ok excluded *)
   map fst (seen ex_nel) = [s2b "udp:127.0.0.9:40000"] /\
-  judge_C02_event ex_pc (js_init ex_cfg) (EvUdp 0 ex_src 5070 ex_nel) (seen ex_nel) [] = 2%nat.
+  map (fun o => option_map (fun om => j_flat_via (jm_headers om)) (j_read (snd o))) (seen ex_nel) =
+    [Some [s2b "SIP/2.0/UDP 127.0.0.9:40000;branch=z9hG4bKabc"]] /\
+  judge_C02_event ex_pc (js_init ex_cfg) (EvUdp 0 ex_src 5070 ex_nel) (seen ex_nel) [] = O.
 Proof.
   split; [apply via_domain_b_sound; vc|]. split; [intros X; vm_compute in X; discriminate X|].
-  split; vm_compute; reflexivity.
+  split; [vm_compute; reflexivity|]. split; vm_compute; reflexivity.
+Qed.
+Example via_lead_ok_needed_by_theorem :
+  judge_C02_event ex_pc (js_init ex_cfg) (EvUdp 0 ex_src 5070 ex_nel) (seen ex_nel) [] = O.
+Proof.
+  apply (C02_judge_bridge_step_udp ex_pc (js_init ex_cfg) all_fixed 0 ex_br ex_st 0%nat ex_lc ex_src 5070 ex_nel
+           (jread ex_nel) (parsed ex_nel) [] ex_p (st_of ex_nel) (outs_of ex_nel) []
+           (via_n ex_nel 0) (via_n ex_nel 1) [] (s2b "127.0.0.9")).
+  - reflexivity.
+  - vc.
+  - vc.
+  - vc.
+  - apply via_domain_b_sound. vc.
+  - vc.
+  - vc.
+  - vc.
+  - vc.
+  - vc.
+  - vc.
+  - vc.
+Qed.
+
+(* WHY THE RIGHT END OF A VIA ENTRY IS NOT READ THROUGH strings.TrimSpace (SpecProxy.j_flat_via: left end
+   TrimSpace, right end ASCII blanks only).  The second entry is followed by a comma and its last parameter,
+   received, ends with U+00A0 (bytes C2 A0; inside [via_domain]: [val_char] allows bytes >= 128).  ParseVia
+   keeps the parameter as it stands: the proxy looks up the host "127.0.0.9" C2 A0, which it does not
+   know, and sends nothing.  The judge reads the same host and accepts.  A reader that trimmed the right
+   end of the entry with TrimSpace semantics would read received=127.0.0.9, rport=40000 - an address the
+   driver observes - and demand a datagram there (reason 1 on a correct run). *)
+Definition nbsp : bytes := [ascii_of_nat 194; ascii_of_nat 160].
+Definition ex_e2 : bytes := s2b "SIP/2.0/UDP 10.9.9.9:5070;rport=40000;received=127.0.0.9" ++ nbsp.
+Definition ex_tail : bytes :=
+  ln "SIP/2.0 200 OK" ++
+  s2b "Via: SIP/2.0/UDP 10.0.0.1:5060;branch=z9hG4bKpx," ++ ex_e2 ++ s2b ",SIP/2.0/TCP 10.8.8.8;branch=z9hG4bKdef" ++ crlf ++
+  flat_map ln ["From: <sip:a@example.com>;tag=1"; "To: <sip:bob@example.com>;tag=2"; "Call-ID: c1";
+               "CSeq: 1 INVITE"; "Content-Length: 0"] ++ crlf.
+Example via_tail_kept :
+  via_domain (parsed ex_tail) /\
+  hop_host (via_n ex_tail 1) = s2b "127.0.0.9" ++ nbsp /\
+  seen ex_tail = [] /\
+  judge_C02_event ex_pc (js_init ex_cfg) (EvUdp 0 ex_src 5070 ex_tail) (seen ex_tail) [] = O /\
+  option_map (fun v => j_get (s2b "received") (jv_params v)) (j_via (j_trim_via ex_e2)) =
+    Some (Some (s2b "127.0.0.9" ++ nbsp)) /\
+  option_map (fun v => j_get (s2b "received") (jv_params v)) (j_via (trim_space_go ex_e2)) =
+    Some (Some (s2b "127.0.0.9")) /\
+  dest_ok ex_pc (js_init ex_cfg) (j_dest ex_cfg (s2b "UDP") (s2b "127.0.0.9") 40000) (msgs_of (seen ex_tail)) = false.
+Proof.
+  split; [apply via_domain_b_sound; vc|]. repeat split; vm_compute; reflexivity.
 Qed.
 End C02_bridge_example.
 
@@ -1092,3 +1138,4 @@ Print Assumptions C02_judge_bridge_step_tcp_fresh.
 Print Assumptions C02_bridge_example.C02_bridge_ex_udp.
 Print Assumptions C02_bridge_example.C02_bridge_ex_tcp.
 Print Assumptions C02_bridge_example.via_lead_ok_needed.
+Print Assumptions C02_bridge_example.via_lead_ok_needed_by_theorem.
